@@ -324,6 +324,13 @@ def build_tu(proj, job):
             raise ExtractError('required source text %r not found in %s (the job rewrites an operator by hand and must see its definition unchanged)' % (pat, rel))
         report.hit('R16.required_source_text(%s)' % pat)
     replace_cnames = replace_cnames + list(getattr(job, 'extra_replace', ()))
+    # goto-instrument aborts on --replace-call-with-contract for a function that is never called: pass only callees the generated text calls
+    # (a callee the code stopped calling is not an error of the code; its contract simply plays no role)
+    called = [c for c in replace_cnames if len(re.findall(r'\b%s(?:__at_\w+)?\s*\(' % re.escape(c), text)) > 1]
+    for c in replace_cnames:
+        if c not in called:
+            report.hit('R6.replaced_callee_not_called(%s)' % c)
+    replace_cnames = called
     return dict(text=text, entry='h_' + fi.cname, cname=(fi.cname if getattr(job, 'enforce', True) else None), replace=replace_cnames, contract=contract,
                 report=report, metas=metas, fi=fi, has_loops=bool(contract.loops), loop_lines=ex.loop_lines)
 
